@@ -122,6 +122,35 @@ func runC16(w *World, r *Report) {
 		}
 	}
 
+	// ---- only a nested graph is handed whole Options: a pass-through node also has no option type, but is no graph
+	r.Rule("C16.passthrough-not-a-graph", "wherever extractOption treats optionType == nil as 'nested graph' and forwards an Option, the node is known not to be a pass-through node", 2)
+	{
+		fOT := w.Field("compose", "composableRunnable", "optionType")
+		fPT := w.Field("compose", "composableRunnable", "isPassthrough")
+		n := 0
+		instrs(eo, func(in ssa.Instruction) {
+			mu, ok := in.(*ssa.MapUpdate)
+			if !ok {
+				return
+			}
+			asGraph := hasGuard(mu.Block(), func(g guard) bool {
+				return guardIsNil(g, func(v ssa.Value) bool { return isLoadOfField(v, fOT) })
+			})
+			if !asGraph {
+				return
+			}
+			n++
+			notPT := hasGuard(mu.Block(), func(g guard) bool {
+				return isLoadOfField(g.cond, fPT) && !g.pol
+			})
+			r.Check(notPT, "C16.passthrough-not-a-graph", fmt.Sprintf("extractOption: Option forwarded to an option-type-less node #%d", n), mu.Pos(), "under optionType == nil && !isPassthrough",
+				"a node without an option type is taken for a nested graph although it may be a pass-through node: a path designated below a pass-through node, or a component option designated to it, is silently accepted instead of being an error")
+		})
+		if n < 2 {
+			undecidedf("C16.passthrough-not-a-graph: %d forwarding writes under optionType == nil (floor 2)", n)
+		}
+	}
+
 	// ---- a designation built in steps keeps the earlier paths
 	r.Rule("C16.designation-accumulates", "DesignateNodeWithPath stores a path list that derives from BOTH the option's earlier paths and the new ones", 1)
 	{
